@@ -83,7 +83,7 @@ SPEC = dict(
         "the EOF token's stale Pos/column (known finding eof-stale-position) is evaluated on every case; its LINE (eof_line_true) and the stale column value after a # comment (stale_column_exact) are proved about the model",
         "comment tokens are exempt from 'Pos is the first character': their Pos is the first byte of the comment TEXT (what Val holds; the opener # or /* stands directly before it - proved); they are meta data and never reach an error or a break point",
         "errors_carry_token_pos is a syntactic source fact: the judgement (operands of the constructions, of the Sprintf calls, of the value that indexes ed.breakPoints) is Go string matching in go/cmd/harness/c18extract.go and is trusted; Lean only checks 'every kind present, none refuted' over the printed list; that the error names the OFFENDING token is checked by the planted-error cases (11 parse + 13 runtime plants x 4 shapes)",
-        "the gap clause of 'Pos is the first character' (nothing but blanks and comments between the end of the previous token's text and Pos) is TESTED on every case by the driver's independent scan (expectedPositions), not proved; proved are: the rune AT Pos is not blank, the token text stands at Pos (words, numbers, comments), Pos strictly increasing, every token pushed by lexToken from a boundary state standing at its Pos; string and error tokens have no extent in the C18 theorems (C14Lex gives the extent of a literal that starts a token)",
+        "the gap clause of 'Pos is the first character' is proved (gap_is_blank: only a run of blank runes between the end of the previous token's lexing and Pos / the comment opener) and additionally tested on every case by the driver's independent scan (expectedPositions); the end of a token's lexing is pinned to Pos+|Val| for keywords, symbols, identifiers and comments - for numbers, string and error tokens the C18 theorems state only Pos < end (C14Lex gives the extent of a string literal that starts a token)",
     ],
     assumptions=["sep cases: token lines never decrease along the token sequence (proved: lines_monotone), so the same-line-as-previous relation "
                  "determines every line comparison the parser makes; that parser.go uses token lines only in such comparisons (run, ndReturn, "
@@ -102,7 +102,8 @@ META = dict(
                 "column unless the last newline before it ended a # comment - then exactly the column measured from that comment's line start "
                 "(token_positions_true_partial, stale_column_exact; negative witness proved); at Pos stands a non-blank rune and the "
                 "token's text (token_starts_at_first_character, token_text_at_pos; comment tokens: first byte of the comment text, opener directly "
-                "before; that only blanks / comments lie between two tokens is tested on every case, not proved); "
+                "before; only a run of blank runes lies between the end of one token's lexing and the next Pos: gap_is_blank, "
+                "token_pos_is_first_character); "
                 "EOF only at the end with the line of the end of input, Pos strictly increasing, lines never decreasing (token_list_shape, "
                 "lines_monotone, eof_line_true); the lexer always terminates with EOF or an error token, no fuel runs out (lexer_always_closes); "
                 "errors, messages, stack traces, the except object and break point keys copy Lline/Lpos of one token (errors_carry_token_pos: "
